@@ -349,4 +349,25 @@ Section Universe.
 
   (* index.json validity: every entry points to an existing blob *)
   Definition disk_valid (s : store) : bool := forallb (fun e => mem (d_node e) (blobs s)) (disk s).
+
+  (* ---------- vocabulary of the C08 statements (definitions only) ---------- *)
+  (* a tag name is never the digest string of another node *)
+  Definition wf_tag (d : desc) (r : ref) : Prop := match r with RDig k => k = d_node d | RTag _ => True end.
+  Definition wf_op (o : op) : Prop := match o with OTag d r => wf_tag d r | _ => True end.
+  Definition wf_history (h : list (op * orders)) : Prop := Forall (fun oo => wf_op (fst oo)) h.
+  Definition no_reopen (h : list (op * orders)) : Prop := Forall (fun oo => fst oo <> OReopen) h.
+
+  (* store [a] answers every public query like store [b]: tag list, tag -> descriptor up
+     to the ref-name annotation, Resolve by digest, Exists/Fetch, Predecessors
+     (for every tag name below T and every node, also outside the universe bound) *)
+  Record obs_equiv (T : nat) (a b : store) : Prop := {
+    oe_tags : obs_tags T a = obs_tags T b;
+    oe_rtag : forall t, match obs_resolve_tag a t, obs_resolve_tag b t with
+                        | Some x, Some y => desc_eqb_mod x y = true
+                        | None, None => True
+                        | _, _ => False
+                        end;
+    oe_rdig : forall k, obs_resolve_dig a k = obs_resolve_dig b k;
+    oe_exists : forall k, obs_exists a k = obs_exists b k;
+    oe_preds : forall k, obs_preds a k = obs_preds b k }.
 End Universe.
